@@ -215,12 +215,12 @@ def run_trials(case, res):
         newinf = set()
         while i < len(rec) and rec[i][0] in infecteds and (rec[i][0], rec[i][1]) not in tested:
             u, v, pp, r = rec[i]
-            if status[v] != 'S' or v in newinf or not G.has_edge(u, v):
-                viol(res, '%s|trial_only_on_susceptible_contact' % name, {'pair': [repr(u), repr(v)], 'target_status': status[v], 'already_infected_this_step': v in newinf})
+            if status[v] != 'S' or not G.has_edge(u, v):
+                viol(res, '%s|trial_only_on_susceptible_contact' % name, {'pair': [repr(u), repr(v)], 'target_status': status[v]})
                 return
             tested.add((u, v))
             if r:
-                newinf.add(v)
+                newinf.add(v)        # further trials on a target already infected in this step are harmless (they cannot change the outcome)
             i += 1
         bump(res, 'contact_steps_checked')
         # completeness: every infectious-susceptible contact whose target escaped was tried (k failures); infected targets: trials stop at first success
